@@ -11,7 +11,8 @@ Record ndump := mkDump {
   d_tfc : list node; d_fwd : list node; d_obs : list node; d_dirty : list node;
   (* observed dependencies whose observed value / transitive-firewall-callee fingerprint is
      the one the dependency records now *)
-  d_obs_val_cur : list node; d_obs_tfc_cur : list node }.
+  d_obs_val_cur : list node; d_obs_tfc_cur : list node;
+  d_bwd : list node (* recorded callers (backward edges) *) }.
 
 Inductive case :=
 | mkCase (p : program) (ops : list op) (real : list opres)
@@ -77,13 +78,14 @@ Definition first_diff := fun (i : N) => first_diff_from i true.
 (** * state-level comparison: after every operation, every query's bookkeeping *)
 Definition model_dump (s : state) (n : node) : ndump :=
   match get_info s n with
-  | None => mkDump None None [] [] [] [] [] []
+  | None => mkDump None None [] [] [] [] [] [] (callers_of s n)
   | Some i =>
       let fwd := all_callees (i_fwd i) in
       mkDump (Some (i_verified i)) (i_pending i) (i_tfc i) fwd (map fst (i_obs i))
              (filter (fun c => emem (n, c) (s_dirty s)) fwd)
              (map fst (filter (fun '(x, (v, _)) => match get_info s x with Some xi => i_value xi =? v | None => false end) (i_obs i)))
              (map fst (filter (fun '(x, (_, t)) => match get_info s x with Some xi => nset_eqb (i_tfc xi) t | None => false end) (i_obs i)))
+             (callers_of s n)
   end.
 (** [last_verified] is compared only as "computed or not": whether a clean query is stamped in
     this epoch depends on whether some pedantic walk reached it before or after the (parallel)
@@ -102,7 +104,8 @@ Definition ndump_eqb_gen (strict dirty : bool) (a b : ndump) : bool :=
   opt_same_shape (d_verified a) (d_verified b)
   && nset_eqb (d_tfc a) (d_tfc b) && list_eqb node_eqb (d_fwd a) (d_fwd b)
   && nset_eqb (d_obs a) (d_obs b) && (negb dirty || nset_eqb (d_dirty a) (d_dirty b))
-  && nset_eqb (d_obs_val_cur a) (d_obs_val_cur b) && nset_eqb (d_obs_tfc_cur a) (d_obs_tfc_cur b).
+  && nset_eqb (d_obs_val_cur a) (d_obs_val_cur b) && nset_eqb (d_obs_tfc_cur a) (d_obs_tfc_cur b)
+  && nset_eqb (d_bwd a) (d_bwd b).
 Definition ndump_eqb := ndump_eqb_gen true.
 Definition state_eqb (strict dirty : bool) (s : state) (real : list (node * ndump)) : bool :=
   forallb (fun '(n, d) => ndump_eqb_gen strict dirty (model_dump s n) d) real.
